@@ -117,6 +117,7 @@ def run(ck):
             if len(ck.samples) < 3 and len(res.trace) > 20:
                 ck.sample({'program': sc['program'], 'backend': sc['backend'], 'events': [X.ev_show(e) for e in res.trace[:40]]})
     enumerated(ck, b)
+    X.require_coverage(ck, [X.WAIT_KEY, X.DUMP_KEY], 'lock-step runs')
     b.flush()
     # exactly-once with REAL processes (harness/e2e.py): every task function appends one line per call to a log; after
     # 1-4 concurrent `jug execute` processes (+ pack, late workers, a final idle execute) each call line occurs exactly once
